@@ -7,7 +7,8 @@ use p2p::{Resp, Step};
 
 pub const NAME: &str = "p2p_resp";
 
-const MSGS: [&str; 44] = [
+const MSGS: [&str; 45] = [
+    "tx.reqidsnb",
     "hs.propose:13-764824073", "hs.propose:13-764824073,14-764824073", "hs.propose:7-764824073", "hs.propose:13-2", "hs.propose:-",
     "hs.propose:15-764824073,13-764824073", "hs.accept:13:1", "hs.refuse", "hs.query",
     "ka.keepalive:7", "ka.keepalive:65535", "ka.resp:7", "ka.done",
